@@ -186,6 +186,30 @@ pub fn check_log(h: &Hist, info: &SchedInfo) -> Result<(bool, Vec<&'static str>)
             _ => {}
         }
     }
+    // ... and conversely: once the check was started by an on-demand request, or an on-demand request has been
+    // answered AlreadyRunning during the check or the reboot wait, the reboot question stays on-demand (later
+    // background requests do not downgrade it)
+    let mut od_certain = false;
+    for (i, op) in log.iter().enumerate() {
+        match op {
+            Op::CheckAllowed { on_demand, answer, .. } => od_certain = *on_demand && answer.positive(),
+            Op::ControlReply { req, reply: "AlreadyRunning" } => {
+                if issue_at.iter().any(|(r, _, od)| r == req && *od) {
+                    od_certain = true;
+                }
+            }
+            Op::Took(EventView::State(StateView::Idle)) | Op::Build { .. } => od_certain = false,
+            Op::RebootAllowed { on_demand: false, .. } if od_certain => {
+                return Err(failure(
+                    "reboot-question-not-on-demand",
+                    "reboot_allowed was asked with background options although this check was started by, or has received, an on-demand request".to_string(),
+                    h,
+                    Some((i.saturating_sub(14), i + 2)),
+                ));
+            }
+            _ => {}
+        }
+    }
     // an on-demand request answered during the reboot wait is followed by the on-demand reboot question (and the reboot iff yes)
     for (req, ri, reply) in &reply_at {
         let (_, ii, od) = issue_at.iter().find(|(r, _, _)| r == req).copied().unwrap();
